@@ -11,7 +11,7 @@
 From Coq Require Import String Ascii List Bool Arith ZArith.
 From LC Require Import MathDefs ValidDefs ValidSpec ValidLeaf ValidMathProofs ValidCompProofs ValidUnitsProofs ValidProofs
   ValidCitedProofs ValidCited2Proofs ValidCycleProofs ValidIdsProofs ValidWitness ValidXmlName ValidImportProofs
-  ValidNamesProofs ValidIdsEnumProofs ValidSoundProofs.
+  ValidNamesProofs ValidIdsEnumProofs ValidSoundProofs ValidCompleteProofs.
 Import ListNotations.
 Local Open Scope string_scope.
 Local Open Scope list_scope.
@@ -270,6 +270,35 @@ Example C04_sound_all_worlds_nonvacuous :
   validate current_fixes ueq_c08 false w_resolved_both = [] /\ Rules current_fixes ueq_c08 w_resolved_both.
 Proof. exact (conj ValidWitness.w_resolved_both_accepted ValidWitness.w_resolved_both_rules). Qed.
 Print Assumptions C04_sound_all_worlds_nonvacuous.
+
+(** ACCEPTS VALID MODELS, from the rule-by-rule predicate: the rules plus an acyclic units reference graph make the validator
+    silent.  Hypotheses that remain: [units_stay_local] (the units imports of model 0 are unresolved) — NEEDED, see
+    C04_units_stay_local_needed — and [imports_forward] (component imports point forward: the fuel bound of the model's
+    recursion; the library has no such bound, so this one is a limit of the model, not of the validator). *)
+Theorem C04_validate_complete_rules_partial : forall fx ueq W, Repr (model_at W 0) -> units_stay_local (model_at W 0) ->
+  imports_forward W -> Rules fx ueq W -> UnitsAcyclic (model_at W 0) -> validate fx ueq false W = [].
+Proof. exact ValidCompleteProofs.validate_complete_rules. Qed.
+Print Assumptions C04_validate_complete_rules_partial.
+
+Theorem C04_validate_iff_rules_partial : forall fx ueq W, Repr (model_at W 0) -> units_stay_local (model_at W 0) -> imports_forward W ->
+  (validate fx ueq false W = [] <-> Rules fx ueq W /\ UnitsAcyclic (model_at W 0)).
+Proof. exact ValidCompleteProofs.validate_iff_rules. Qed.
+Print Assumptions C04_validate_iff_rules_partial.
+
+Example C04_iff_rules_nonvacuous : Rules current_fixes ueq_c08 w_import_child /\ UnitsAcyclic (model_at w_import_child 0).
+Proof. exact ValidCompleteProofs.iff_rules_nonvacuous. Qed.
+Print Assumptions C04_iff_rules_nonvacuous.
+
+(** [units_stay_local] cannot be dropped: same rules, acyclic graph, imports forward — but the TARGET of the resolved units
+    import references units that do not exist, and the validator (rightly, as the library does: corpus case
+    imported-units-missing-reference) reports UNIT_UNITS_REFERENCE.  [Rules] says nothing about the content of imported units. *)
+Theorem C04_units_stay_local_needed :
+  Repr (model_at w_units_target_bad 0) /\ imports_forward w_units_target_bad
+  /\ Rules current_fixes ueq_c08 w_units_target_bad /\ UnitsAcyclic (model_at w_units_target_bad 0)
+  /\ validate current_fixes ueq_c08 false w_units_target_bad = [(Error, V_UNIT_UNITS_REFERENCE)]
+  /\ ~ units_stay_local (model_at w_units_target_bad 0).
+Proof. exact ValidCompleteProofs.units_target_needed. Qed.
+Print Assumptions C04_units_stay_local_needed.
 
 (** THE MAIN EQUIVALENCE WITH RESOLVED COMPONENT IMPORTS.  Well-foundedness: imports point forward in the world
     ([imports_forward]: a component of model i whose import source has model j satisfies i < j < length W).  WFr = WF plus,
